@@ -93,6 +93,12 @@ let run_io () =
                        | None -> -1) in
              Printf.printf "use 0 F%d_t%s\n" nm (dump ())
          | _ -> Printf.printf "use 1 -%s\n" (dump ()))
+    | ["walk"; c; n] ->
+        (match hstep fuel !w !s !live (OWalk (i2n (max 0 (int_of_string c)), [(i2n (int_of_string n), false)])) with
+         | None -> print_string "diverge\n"; stop := true
+         | Some ((s1, l1), r) -> s := s1; live := l1;
+             (match r with ResWalk true -> Printf.printf "walk 0 F%s_t%s\n" n (dump ())
+                         | _ -> Printf.printf "walk 1 -%s\n" (dump ())))
     | ["get"; c] ->
         let c = max 0 (int_of_string c) in
         if get_cgnsio !s (i2n c) then
